@@ -285,8 +285,8 @@ impl<L: Language, N: Analysis<L>> EGraph<L, N> {
                     return;
                 }
 
-                // or is it the opposite direction? (flip a with b)
-                let perm = a.m.compose(&b.m.inverse());
+                // `proof` shows a = b, i.e. i[identity] = i[b.m * a.m^-1] after renaming by a.m^-1.
+                let perm = b.m.compose(&a.m.inverse());
 
                 let proven_perm = ProvenPerm {
                     elem: perm,
